@@ -121,12 +121,18 @@ def main(tier='quick', seed=0, prop=PROP, rel=REL, lang=LANG, modname='props.c03
         paths += r.get('paths', 0)
     # the rule proofs use Unification through its contract: the obligations of that contract are part of this check as well
     # (a change inside depccg/unification.py that breaks the contract must fail C03 / C04, not only C06)
-    from props import c06
+    from props import c06, c13
     urecs, uerrs, ulib, uinl, upaths, upairs = c06.deductive_records(prop)
     records.extend(urecs)
     errors.extend(uerrs)
     lib.update(ulib)
     paths += upaths
+    # ... and the Category / Feature methods through the contracts of depccg/cat.py: re-discharged here as well
+    crecs, cerrs, clib, cinl, cpaths, cimpls, _w = c13.deductive_records(prop)
+    records.extend(crecs)
+    errors.extend(cerrs)
+    lib.update(clib)
+    paths += cpaths
     b, err = bounded(tier, seed, lang)
     binfo = None
     if err:
@@ -147,7 +153,8 @@ def main(tier='quick', seed=0, prop=PROP, rel=REL, lang=LANG, modname='props.c03
     ]
     assumptions.extend(sorted(lib))
     extra = dict(functions_under_contract=[f'{rel}::{n}' for n in names] + [f'{rel}::apply_binary_rules', f'{rel}::_is_modifier / _is_punct / _is_type_raised (inlined)',
-                                           'depccg/unification.py::Unification.__call__ / scan_deep / __getitem__ (contract obligations of C06, re-discharged here)'],
+                                           'depccg/unification.py::Unification.__call__ / scan_deep / __getitem__ (contract obligations of C06, re-discharged here)',
+                                           'depccg/cat.py::Category / Feature methods (contract obligations of C13, re-discharged here)'],
                  paths=paths, completeness_cases=[c.name for c in comp])
     return engine.finish(prop, tier, seed, t0, records, errors, extra, assumptions, bounded=binfo)
 
